@@ -9,9 +9,47 @@ from c36 import build_flow, rspecs, write_flows, run_reader, state_canon, to_wir
 from mitmproxy import exceptions, http
 from mitmproxy import io as mio
 from mitmproxy.addons import save as save_addon
+from mitmproxy.addons import readfile as readfile_addon
+import asyncio
 from mitmproxy.test import taddons
 
 CHUNK = 150        # offsets per truncation case
+
+
+class addon_ctx:
+    """taddons.context that also uninstalls the master's stdlib-logging bridge on exit (taddons leaves it installed,
+    pointing at a closed event loop, which makes every later logging call in this process raise)"""
+    def __init__(self, *addons):
+        self.ctx = taddons.context(*addons)
+    def __enter__(self):
+        return self.ctx.__enter__()
+    def __exit__(self, *a):
+        try:
+            self.ctx.master._legacy_log_events.uninstall()
+        except Exception:
+            pass
+        return self.ctx.__exit__(*a)
+
+
+async def readfile_counts(cuts):
+    """the ReadFile addon on each truncated content: (flows handed to the master, how it ended)"""
+    out = []
+    rf = readfile_addon.ReadFile()
+    with addon_ctx(rf) as tctx:
+        for cut in cuts:
+            loaded = []
+            async def lf(f, loaded=loaded): loaded.append(f)
+            tctx.master.load_flow = lf
+            try:
+                await rf.load_flows(io.BytesIO(cut)); end = "clean"
+            except exceptions.FlowReadException:
+                end = "flowRead"
+            except CaseTimeout:
+                raise
+            except BaseException as e:  # noqa
+                end = "other:" + type(e).__name__
+            out.append(([state_canon(f.get_state()) for f in loaded], end))
+    return out
 
 
 def expected_at(bounds, off):
@@ -53,8 +91,8 @@ class Check(PropertyCheck):
             "real Save addon streaming to a file through an interleaved hook sequence of 2-5 flows of mixed types, file read "
             "after each hook; real: explicit save.file to a real file, truncated copies read with read_flows_from_paths. "
             "distinct = distinct (file, window) / hook script; non-trivial = at least one cut strictly inside a record.")
-    budget = {"quick": 400, "thorough": 30000}
-    time_budget = {"quick": 22, "thorough": 600}
+    budget = {"quick": 400, "thorough": 24000}
+    time_budget = {"quick": 22, "thorough": 420}
     fingerprints = ["mitmproxy.io.io:FlowWriter.add", "mitmproxy.io.io:FilteredFlowWriter.add", "mitmproxy.io.io:FlowReader.stream",
                     "mitmproxy.io.io:read_flows_from_paths", "mitmproxy.io.tnetstring:load", "mitmproxy.io.tnetstring:dump",
                     "mitmproxy.addons.save:Save.save_flow", "mitmproxy.addons.save:Save.done", "mitmproxy.addons.save:Save.save",
@@ -70,8 +108,11 @@ class Check(PropertyCheck):
     def on_timeout(self, case):
         return [f"reading a truncated file did not return within {self.case_timeout}s"]
 
+    tier = "quick"
+
     def setup(self, tier):
         self.parallel = tier == "thorough"
+        self.tier = tier
 
     # ---------------------------------------------------------------------------------------------
     def file_for(self, case):
@@ -153,10 +194,11 @@ class Check(PropertyCheck):
                     res[0] = len(got)
                     same = got == ids[:len(got)]
                 seen[off] = f"{res[0]}:{res[1]}"
-                want_end = "clean" if on_boundary else "flowRead"
-                if res[0] != ek or res[1] != want_end or not same:
+                # the statement allows either ending ("either ends cleanly or reports a flow-read error"); which of the
+                # two happens (clean iff the cut is on a record boundary) is what the model predicts and the tie compares
+                if res[0] != ek or res[1] not in ("clean", "flowRead") or not same:
                     if len(bad) < 5:
-                        bad.append([off, f"read {res[0]} flows, end={res[1]}, flows-equal={same}; expected {ek} flows, end={want_end}"])
+                        bad.append([off, f"read {res[0]} flows, end={res[1]}, flows-equal={same}; expected exactly the {ek} completely written flows, then a clean end or FlowReadException"])
             tie = sample_offsets(r, bounds, lo, hi, 8)
             return {"len": len(data), "bounds": bounds, "n_offsets": hi - lo + 1, "bad": bad, "types": [f.type for f in flows],
                     "tie_offsets": tie, "tie_seen": [seen[o] for o in tie],
@@ -203,7 +245,7 @@ class Check(PropertyCheck):
         prev = b""
         try:
             sa = save_addon.Save()
-            with taddons.context(sa) as tctx:
+            with addon_ctx(sa) as tctx:
                 tctx.configure(sa, save_stream_file=path)
                 def snapshot(label, event):
                     nonlocal prev
@@ -211,9 +253,10 @@ class Check(PropertyCheck):
                     res, states = run_reader(io.BytesIO(cur), want_states=True)
                     got = [state_canon(s) for s in states]
                     grew = cur[:len(prev)] == prev
-                    ok = res == [len(saved), "clean"] and grew and (sorted(map(json.dumps, got)) == sorted(map(json.dumps, saved)) if label == "done" else got == saved)
+                    # "a stream file is complete up to the last finished flow at any moment"
+                    ok = res[0] == len(saved) and res[1] in ("clean", "flowRead") and got == saved
                     if not ok and len(bad) < 4:
-                        bad.append([label, f"file reads as {res}, expected {len(saved)} flows clean; append-only={grew}; flows-equal={got == saved}"])
+                        bad.append([label, f"after this hook the file reads as {res}; {len(saved)} flows were finished; flows-equal={got == saved}; append-only={grew}"])
                     steps.append({"hook": label, "event": event, "len": len(cur), "wires": list(pending_wires)})
                     prev = cur
                 pending_wires = []
@@ -235,10 +278,11 @@ class Check(PropertyCheck):
                 res, states = run_reader(io.BytesIO(final), want_states=True)
                 got = [state_canon(s) for s in states]
                 grew = final[:len(prev)] == prev
-                ok = res == [len(saved), "clean"] and grew and sorted(map(json.dumps, got)) == sorted(map(json.dumps, saved)) \
+                ok = res[0] == len(saved) and res[1] in ("clean", "flowRead") \
+                    and sorted(map(json.dumps, got)) == sorted(map(json.dumps, saved)) \
                     and got[:len(saved) - len(pending)] == saved[:len(saved) - len(pending)]
                 if not ok and len(bad) < 4:
-                    bad.append(["done", f"file reads as {res}, expected {len(saved)} flows clean; append-only={grew}"])
+                    bad.append(["done", f"after done() the file reads as {res}; {len(saved)} flows were written; append-only={grew}"])
                 # done() walks a set: the order in which it wrote the pending flows is read off the file (by flow id)
                 by_id = {f.id: to_wire(f.get_state()) for f in pending}
                 order = [st["id"] for st in states[len(saved) - len(pending):]]
@@ -257,7 +301,7 @@ class Check(PropertyCheck):
         try:
             path = os.path.join(d, "saved.mitm")
             sa = save_addon.Save()
-            with taddons.context(sa):
+            with addon_ctx(sa):
                 sa.save(flows, path)                       # the `save.file` command: FlowWriter on a buffered file
             data = open(path, "rb").read()
             _, bounds = write_flows(flows)
@@ -276,17 +320,22 @@ class Check(PropertyCheck):
                 except BaseException as e:  # noqa
                     got = None; end = "other:" + type(e).__name__
                 ek, on_boundary = expected_at(bounds, off)
-                # read_flows_from_paths returns all-or-nothing: flows iff the file ends on a record boundary
-                if on_boundary:
-                    okk = end == "clean" and [state_canon(f.get_state()) for f in got] == canon[:ek]
+                # read_flows_from_paths is all-or-nothing: either exactly the completely written flows or FlowReadException
+                if end == "clean":
+                    okk = [state_canon(f.get_state()) for f in got] == canon[:ek]
                 else:
                     okk = end == "flowRead"
                 # and the streaming reader on the real file object
                 with open(p2, "rb") as fo: res, states = run_reader(fo, want_states=True)
-                ok2 = res == [ek, "clean" if on_boundary else "flowRead"] and [state_canon(s) for s in states] == canon[:ek]
+                ok2 = res[0] == ek and res[1] in ("clean", "flowRead") and [state_canon(s) for s in states] == canon[:ek]
                 seen.append(f"{res[0]}:{res[1]}")
                 if not (okk and ok2) and len(bad) < 4:
                     bad.append([off, f"read_flows_from_paths -> {end}, stream -> {res}; expected {ek} flows, boundary={on_boundary}"])
+            # the ReadFile addon (rfile option): what reaches the master from each truncated file
+            for off, (got, end) in zip(offs, asyncio.run(readfile_counts([data[:o] for o in offs]))):
+                ek, _ = expected_at(bounds, off)
+                if (got != canon[:ek] or end not in ("clean", "flowRead")) and len(bad) < 4:
+                    bad.append([off, f"ReadFile.load_flows handed {len(got)} flows to the master and ended {end}; {ek} flows were completely written"])
         finally:
             shutil.rmtree(d, ignore_errors=True)
         return {"bad": bad, "len": len(data), "bounds": bounds, "tie_offsets": offs, "tie_seen": seen, "data_hex": hx(data),
@@ -305,6 +354,9 @@ class Check(PropertyCheck):
         k = case["k"]
         if k in ("trunc", "real"):
             n = len(obs["bounds"]) - 1
+            if self.tier == "thorough" and k == "trunc" and case["lo"] != 0 and (case["lo"] // CHUNK) % 4 \
+                    and not any(case["lo"] <= b <= case["hi"] for b in obs["bounds"]):
+                return None      # whole files are large protocol lines: windows without a record boundary are tied one in four
             lines = []
             if k == "trunc" and case["lo"] == 0 and case.get("hi", 0) >= 0:
                 lines = ["reset"] + [f"save {w}" for w in obs["wires"]] + ["file"]
@@ -347,7 +399,7 @@ class Check(PropertyCheck):
             out += ["hook:" + h for h in set(obs["script"])]
             out.append("hooks:done-writes:%d" % min(3, len(obs["steps"][-1]["wires"])))
         else:
-            out += ["flow:" + t for t in set(obs["types"])]
+            out += ["flow:" + t for t in set(sp["t"] for sp in case["specs"])]
             out.append("records:%d" % (len(obs["bounds"]) - 1))
             if k == "trunc": out.append("offsets:%d" % (obs["n_offsets"] // 100 * 100))
         return out
